@@ -111,6 +111,7 @@ def run(ctx):  # noqa: C901, PLR0912, PLR0915
         f = repo.resolve_method(LOC, m)
         if f is None:
             continue
+        f = expand_aliases(f)    # `scopes = service.scopes` written out
         gm = cfg_of(f)
         for hn in gm.real_nodes():
             for a in hn.walk():
